@@ -8,16 +8,20 @@
  * "For all k" statements use the ghost index g_k (relative to pos) with v_k == pos[g_k] on entry. */
 #include "verif_c.h"
 #include "constants.h"
+#ifdef SCALED_MAXLEN       /* scaled stand-in instances only, see unit.cpp */
+#undef SOPLEX_LPF_MAX_LINE_LEN
+#define SOPLEX_LPF_MAX_LINE_LEN SCALED_MAXLEN
+#endif
 #ifndef CAP
 #define CAP 9000
 #endif
 char* gp_line; char** gpp_pos; const char* gp_arg;
-int g_len, g_off, g_k, g_calls, g_tl, g_num, g_added, g_add_same, g_cadded, v_nret, g_scan_end;
+int g_len, g_off, g_k, g_w, g_calls, g_tl, g_num, g_added, g_add_same, g_cadded, v_nret, g_scan_end;
 char v_k, v_arg_k, v_arg_end, v_arg_0, v_c0, v_c1, v_c2, v_c3; double v_ret;
 char nondet_char(void);
 static void havoc_ghosts(void)
 {
-   g_len = nondet_int(); g_off = nondet_int(); g_k = nondet_int(); g_tl = nondet_int(); g_num = nondet_int();
+   g_len = nondet_int(); g_off = nondet_int(); g_k = nondet_int(); g_w = nondet_int(); g_tl = nondet_int(); g_num = nondet_int();
    v_k = nondet_char(); v_arg_k = nondet_char(); v_arg_end = nondet_char(); v_arg_0 = nondet_char();
    g_add_same = nondet_int(); v_nret = nondet_int();
    v_c0 = nondet_char(); v_c1 = nondet_char(); v_c2 = nondet_char(); v_c3 = nondet_char();
@@ -155,12 +159,16 @@ void h_readInfinity(void) { char* line; int n, off; int* off_out; havoc_ghosts()
 /* ======================================================================================================= */
 #ifdef INST_readValue
 #define IS_TOKCHAR(c) (IS_DIGIT(c) || (c) == '+' || (c) == '-' || (c) == '.' || (c) == 'e' || (c) == 'E')
+#define V_CAS ((v_c0 == '+' || v_c0 == '-') ? v_c1 : v_c0)            /* the character behind the optional sign */
 /* *tl_out is the wrapper's witness for the token length T: pos[0..T) is the token, *end_out == pos[T] the character behind it.
- * pos == line here (off == 0): the buffer STARTS at pos, which is the tightest object the function can be given (any
- * access in front of pos would be out of bounds); it also keeps the completely unwound copy loop at constant indices. */
+ * TOKEN LENGTH BOUND: the ghost g_w < TOKCAP is the position of some character that cannot belong to a number, i.e. the token
+ * is shorter than TOKCAP characters.  (The copy loop `*t++ = *pos` writes through a pointer it advances; under a loop contract
+ * every such write becomes a case split over all objects and does not fit in memory, so that loop is unwound completely,
+ * TOKCAP+1 times.  Longer tokens - in particular those that overflow tmp - are outside this instance.) */
 double w_readValue(char* line, int n, int off, int* off_out, int* tl_out, int* end_out)
-__CPROVER_requires(LINE_OK(line, n, off) && off == 0 && HEAD4(line, off) && FRESH_OUT(off_out) && FRESH_OUT(tl_out) && FRESH_OUT(end_out))
+__CPROVER_requires(LINE_OK(line, n, off) && HEAD4(line, off) && FRESH_OUT(off_out) && FRESH_OUT(tl_out) && FRESH_OUT(end_out))
 __CPROVER_requires(IS_VALUE(v_c0))                                        /* every call site checks LPFisValue(pos) first */
+__CPROVER_requires(0 <= g_w && g_w < TOKCAP && g_w <= g_len - off && !IS_TOKCHAR(line[off + g_w]))
 __CPROVER_requires(GHOST_K(line, off) && g_k < g_len - off && 0 <= g_tl && g_tl <= g_len - off)
 __CPROVER_requires(g_calls == 0)
 __CPROVER_assigns(gp_line, gpp_pos, gp_arg, *off_out, *tl_out, *end_out, g_calls, v_arg_k, v_arg_end, v_ret)
@@ -174,9 +182,11 @@ __CPROVER_ensures(!IS_DIGIT(*end_out))
 __CPROVER_ensures(g_calls <= 1)
 __CPROVER_ensures((g_calls == 1 && g_tl == *tl_out) ==> (v_arg_end == 0 && (g_k < g_tl ==> v_arg_k == v_k)))
 __CPROVER_ensures(g_calls == 1 ==> (__CPROVER_return_value == v_ret || (__CPROVER_return_value != __CPROVER_return_value && v_ret != v_ret)))
-/* tokens without any digit ("+", "-", ".", "-e", ...): atof is not called, the value is the sign */
+/* atof is called iff the mantissa has a digit; in particular whenever a digit follows the optional sign.  Otherwise ("+", "-",
+ * ".", "-e5", ...) the value is the sign: +-1 */
+__CPROVER_ensures(IS_DIGIT(V_CAS) ==> g_calls == 1)
 __CPROVER_ensures(g_calls == 0 ==> __CPROVER_return_value == (v_c0 == '-' ? -1.0 : 1.0))
-__CPROVER_ensures((g_calls == 0 && g_k < *tl_out) ==> !IS_DIGIT(v_k))
+__CPROVER_ensures(((*tl_out == 1 || (*tl_out == 2 && (v_c0 == '+' || v_c0 == '-'))) && !IS_DIGIT(V_CAS)) ==> g_calls == 0)
 ;
 void h_readValue(void) { char* line; int n, off; int* off_out; int* tl_out; int* end_out; havoc_ghosts(); w_readValue(line, n, off, off_out, tl_out, end_out); CANARY(); }
 #endif
